@@ -923,11 +923,23 @@ def rule_sections_and_ranges(ctx) -> None:
     paths = err_paths()
     # (a)
     n_sec = 0
+    rdi = ctx.rd(impl)
+    # role: a local holding the user's own copy of a top-level section = _ensure_dict(<input>.get("<sec>"))
+    raw_of: Dict[str, str] = {}
+    for d in rdi.all_defs:
+        v = d.value
+        if d.kind == "assign" and isinstance(v, ast.Call) and call_tail(v) == "_ensure_dict" and v.args and isinstance(v.args[0], ast.Call) and call_tail(v.args[0]) == "get" \
+                and isinstance(v.args[0].func.value, ast.Name) and v.args[0].args and const_str(v.args[0].args[0]):
+            holder = v.args[0].func.value.id
+            hd = [dd for dd in rdi.all_defs if dd.name == holder and dd.value is not None and dd.kind == "assign"]
+            if hd and all(isinstance(dd.value, ast.Call) and call_tail(dd.value) == "_ensure_dict" and dd.value.args and isinstance(dd.value.args[0], ast.Name) and dd.value.args[0].id in impl.params for dd in hd):
+                raw_of[d.name] = const_str(v.args[0].args[0])
     for x in walk_no_defs(impl.node):
-        if isinstance(x, ast.If) and isinstance(x.test, ast.Name) and x.test.id.startswith("raw_"):
-            stores = [y for st in x.body for y in ast.walk(st) if isinstance(y, ast.Assign) and any(isinstance(t, ast.Subscript) and isinstance(t.value, ast.Name) and t.value.id == "merged" and const_str(t.slice) for t in y.targets)]
+        if isinstance(x, ast.If) and isinstance(x.test, ast.Name) and x.test.id in raw_of:
+            want = raw_of[x.test.id]
+            stores = [y for st in x.body for y in ast.walk(st) if isinstance(y, ast.Assign) and any(isinstance(t, ast.Subscript) and isinstance(t.value, ast.Name) and const_str(t.slice) == want for t in y.targets)]
             for y in stores:
-                sec = next(const_str(t.slice) for t in y.targets if isinstance(t, ast.Subscript) and const_str(t.slice))
+                sec = want
                 n_sec += 1
                 rejected = any(const_str(c.args[1]) == sec and any("isinstance" in t and "dict" in t for t, pol in cfg.facts(n)) for n, c in errs)
                 ctx.check(rejected, "C14.CONTRACT", f"{impl.qual}/section-must-be-a-mapping:{sec}", impl.loc(x), f"a non-mapping `{sec}` is rejected",
